@@ -192,6 +192,9 @@ package blob
 // writer of the same blob, whose verified final write must not complete a file whose front was
 // truncated under it (concurrent-writers clause of C08; added after seeded change C08-seed2)
 //@   assert-at call os.OpenFile #1 : (mode & 512) != 0 ==> (err == nil && info.Size() > size)
+// the file reaches its full size only through the hash-checked final write: nothing else may
+// grow it (any Truncate in this function cuts to a length below size) - added after C08-seed3
+//@   assert-at call Truncate : arg1 < size
 
 // ---- Put / Link / Get / Resolve / Import / Unlink -----------------------------------------------
 
